@@ -368,7 +368,14 @@ func smtpOracles(c *core.Ctx, sc *smtpCase, res *dialogueResult, st *smtpStack) 
 					if m.from != e.from || strings.Join(m.to, ",") != strings.Join(e.to, ",") {
 						fail("replacement-is-literal", fmt.Sprintf("replaced message in %q has from %q to %v, the hook returned %q %v", m.mailbox, m.from, m.to, e.from, e.to))
 					}
-					if !bytes.HasSuffix(m.source, e.block) {
+					// several replaced messages may share (mailbox, subject): the copy must carry the data of ONE of them
+					carries := false
+					for _, e2 := range expect {
+						if e2.mailbox == e.mailbox && e2.subject == e.subject && bytes.HasSuffix(m.source, e2.block) {
+							carries = true
+						}
+					}
+					if !carries {
 						fail("replacement-keeps-content", "replaced message does not end with the transmitted data")
 					}
 				}
